@@ -12,6 +12,7 @@ import (
 	"math/rand"
 	"net/http"
 	"net/http/httptest"
+	"runtime"
 	"strconv"
 	"strings"
 	"sync"
@@ -674,6 +675,7 @@ func runCENC(args []string) string {
 				defer cw.Done()
 				ready.Done()
 				for !start.Load() {
+					runtime.Gosched() // (a spin that never yields would take a time slice per worker on a single CPU)
 				}
 				c := shared.Clone()
 				c.AppendData(fmt.Sprintf("line of clone %d in round %d", i, round))
